@@ -24,7 +24,41 @@ func child() *spec.Message {
 }
 
 // Misuses lists every documented rule of property C12.
-func Misuses() []Misuse { return misusesFixed() }
+func Misuses() []Misuse {
+	base := misusesFixed()
+	out := append([]Misuse{}, base...)
+	// declaration-order family: every message-level rule again with the fields of the offending message declared in reverse
+	// order (a rule must not depend on which of two conflicting fields comes first); oneof members stay consecutive.
+	for _, mu := range base {
+		mu := mu
+		if mu.Build == nil {
+			continue
+		}
+		probe, _ := mu.Build()
+		if len(probe) == 0 || len(probe[0].Fields) < 2 {
+			continue
+		}
+		rev := mu
+		rev.Rule = mu.Rule + "_reversed"
+		rev.Build = func() ([]*spec.Message, []*spec.Enum) {
+			ms, es := mu.Build()
+			fs := ms[0].Fields
+			for i, j := 0, len(fs)-1; i < j; i, j = i+1, j-1 {
+				fs[i], fs[j] = fs[j], fs[i]
+			}
+			// oneof declarations follow the order of their first member
+			if len(ms[0].Oneofs) > 1 {
+				os := ms[0].Oneofs
+				for i, j := 0, len(os)-1; i < j; i, j = i+1, j-1 {
+					os[i], os[j] = os[j], os[i]
+				}
+			}
+			return ms, es
+		}
+		out = append(out, rev)
+	}
+	return out
+}
 
 var misusesFixed = func() []Misuse {
 	return []Misuse{
